@@ -9,6 +9,9 @@ ZONES = ["UTC", "Europe/Berlin", "America/New_York", "Australia/Sydney", "Asia/K
          "<+0330>-3:30", "<-0930>9:30", "CET-1CEST,M3.5.0,M10.5.0/3", "EST5EDT,M3.2.0,M11.1.0", "<+1245>-12:45<+1345>,M9.5.0/2:45,M4.1.0/3:45", "UTC-14", "UTC+12"]
 
 
+IANA = {z for z in ZONES if z == "UTC" or (z[0].isalpha() and "/" in z and "," not in z and not any(ch.isdigit() for ch in z))}
+
+
 def set_tz(z):
     os.environ["TZ"] = z
     time.tzset()
@@ -17,7 +20,7 @@ def set_tz(z):
 def offset_at(z, ts):
     """UTC offset (seconds) in force at instant ts in zone z, from an independent source: zoneinfo for IANA names,
     libc's tm_gmtoff (time.localtime) for POSIX rule strings"""
-    if "/" in z and not z.startswith("<") or z == "UTC":
+    if z in IANA:
         return int(datetime.datetime.fromtimestamp(ts, ZoneInfo(z)).utcoffset().total_seconds())
     return time.localtime(ts).tm_gmtoff
 
